@@ -624,7 +624,7 @@ fn builtin_open(args: Vec<Rc<Object>>) -> Result<Rc<Object>, String> {
         }
         "a" => {
             // open a file for appending, create the file if it does not exist
-            let file = fs::OpenOptions::new().append(true).open(path);
+            let file = fs::OpenOptions::new().append(true).create(true).open(path);
             match file {
                 Ok(file) => {
                     let writer = io::BufWriter::new(file);
